@@ -40,10 +40,10 @@ CHECKS = {
 CHECKS["C16"] = dict(text="(a) thousands of random token streams tokenised by the real lexer and by a reference tokenizer written from the token table; (b) one small valid program per declaration/statement shape must be read; (c) hundreds of programs pinning fresh variables to random constant expression trees (all operators, redundant parentheses, random layout and comments) run through read+solve on Debug and Release builds - the solution must report exactly the value the expression denotes",
                      note="trusts the reference tokenizer/evaluator; mixing different operators of one precedence level without parentheses, '(x)+1' (a cast) and numerals beyond 64 bits are not generated; typedef is not exercised (semantics undocumented)",
                      technique="runtime monitoring: differential execution of lexer/reader/solver against a reference tokenizer and exact evaluator")
-CHECKS["C01"] = dict(text="generated RIDDLE problems (constraint networks; objects, rules and timelines as those families are added) run through read()+solve() in the configuration matrix h_max/h_add x CHECK_INCONSISTENCIES on/off x Debug/Release; every asserted constraint is evaluated with exact (rational, eps) arithmetic and Kleene booleans on the values the solution JSON exposes and must be True",
+CHECKS["C01"] = dict(text="generated RIDDLE problems (constraint networks over real/int/bool and over time points handled by difference logic, objects, rules, state variables, resources, unplanted scheduling problems) run through read()+solve() in the configuration matrix h_max/h_add x CHECK_INCONSISTENCIES on/off x Debug/Release; every asserted constraint is evaluated with exact (rational, eps) arithmetic and Kleene booleans on the values the solution JSON exposes and must be True",
                      note="trusts the reference evaluator and the solution JSON as the exposed solution; one known finding (undecided theory atoms in non-monotone positions) is matched by a precise attribution rule using the lra hooks",
                      technique="runtime monitoring: reference evaluation of every asserted constraint on each reported solution across build configurations")
-CHECKS["C02"] = dict(text="whenever oRatio answers 'unsolvable' on a generated problem the verdict is compared with ground truth: the planted assignment/plan the problem was built around (re-validated by the reference evaluator / plan checkers), z3 on the constraint-only fragment, and the verdict of the oRatio executable of the same build; every generated planning problem is solvable by construction, so every 'unsolvable' there is wrong",
+CHECKS["C02"] = dict(text="whenever oRatio answers 'unsolvable' on a generated problem the verdict is compared with ground truth: the planted assignment/plan the problem was built around (re-validated by the reference evaluator / plan checkers), z3 on the constraint-only fragment, and the verdict of the oRatio executable of the same build; generated planning problems are either solvable by construction or (sx family) decided by z3 on the scheduling semantics; every second constraint-network program is also run in an equivalent formulation (independent statements reordered, identifiers renamed, commutative arguments reordered, tautologies added) and must get the same verdict",
                      note="'no solution' is only concluded by z3 on the constraint fragment; timeouts are inconclusive",
                      technique="runtime monitoring: differential verdicts against planted solutions and an SMT reference")
 CHECKS["C17"] = dict(text="generated class hierarchies (single/multiple/diamond inheritance, fields with initialisers, constructors with init lists and super-constructor calls, existential object fields), enums with unions, instances and variables declared in interleaved order and ==/!=/field constraints; a reference object model computes instance sets, field values and (by brute force) all satisfying value combinations, which are compared with the state exposed right after read() and with the solution on Debug and Release builds",
@@ -58,7 +58,7 @@ CHECKS["C05"] = dict(text="reusable-resource problems built around planted load 
                      note=_PLAN_NOTE, technique="runtime monitoring: conservation/sweep oracle over reported plans and extracted timelines")
 CHECKS["C06"] = dict(text="facts and goals on plain Interval/Impulse predicates, rule sub-goals, agents, state variables and resources with release/deadline constraints and tight horizons; every active temporal atom is checked against origin <= start <= end <= horizon, duration = end - start >= 0 (origin <= at <= horizon)",
                      note=_PLAN_NOTE, technique="runtime monitoring: direct evaluation of the temporal invariant on every reported atom")
-CHECKS["C18"] = dict(text="three monitors: (1) thousands of prefixes / delimiter edits / pathological literals / random byte and token strings given to riddle_parser and solver::read under ASan+UBSan with a 10 s / memory bound per input (thorough: plus libFuzzer on both entry points); (2) every solver-level workload family and the shipped examples through read()+solve() under ASan+UBSan with assertions on and on the Release build; (3) every network-level workload family under ASan+UBSan with assertions on and LeakSanitizer; any signal, abort, std::terminate, sanitizer report, failed assertion, reader non-termination or network-layer leak is a violation",
+CHECKS["C18"] = dict(text="three monitors (a tiny program whose solve() does not return within 30 s nor, re-run, within 150 s is a hang): (1) thousands of prefixes / delimiter edits / pathological literals / random byte and token strings given to riddle_parser and solver::read under ASan+UBSan with a 10 s / memory bound per input (thorough: plus libFuzzer on both entry points); (2) every solver-level workload family and the shipped examples through read()+solve() under ASan+UBSan with assertions on and on the Release build; (3) every network-level workload family under ASan+UBSan with assertions on and LeakSanitizer; any signal, abort, std::terminate, sanitizer report, failed assertion, reader non-termination or network-layer leak is a violation",
                      note="a clean sanitizer run is not memory safety; solver search that exceeds the budget is inconclusive; UBSan vptr is off (deliberate construction idiom) and signed overflow is logged only; leaks are judged for the network layer only",
                      technique="runtime monitoring: compiler sanitizers + assertion builds + watchdogs over hostile reader inputs and the other properties' workloads")
 CHECKS["C19"] = dict(text="solved timeline problems (state variables, resources, interval/impulse predicates, agents; integer and fractional times) executed tick by tick with units_per_tick in {1/2, 1, 3/2, 2, 5} by a seeded scripted client that delays random starts/ends and reports failures; the executor_listener event log is checked by a per-atom state machine (time advance, exactly-once start/end in order, not before the planned time, not against the client's last answer, frozen values never move) and the plan after every tick by the C04/C05/C06 checkers, on Debug and Release builds",
